@@ -493,6 +493,31 @@ func c20Round(c *c20Case, dir string) error {
 	if err != nil {
 		return err
 	}
+	if c.Seed%3 == 2 {
+		// one round in three: the instance is stopped while requests are on their way - a repair walk and, behind it,
+		// writes that repeat acknowledged ones (whether or not they are still carried out, the content stays what it
+		// is).  Whatever happens to them, stopping must return and the file must open again.
+		_ = nc.PublishRequest("admin.storeMaint", nats.NewInbox(), nil)
+		ackMu.Lock()
+		again := append([]sOp{}, c.Acked...)
+		ackMu.Unlock()
+		for i := 0; i < 40 && i < len(again); i++ {
+			op := again[len(again)-1-i]
+			pts := make(data.Points, len(op.Points))
+			for j, p := range op.Points {
+				pts[j] = p.toData()
+			}
+			payload, err := pts.ToPb()
+			subj := "p." + op.Node
+			if op.Kind == "ep" {
+				subj += "." + op.Parent
+			}
+			if err == nil {
+				_ = nc.PublishRequest(subj, nats.NewInbox(), payload)
+			}
+		}
+		_ = nc.Flush()
+	}
 	nc.Close()
 	// ordered shutdown must terminate
 	done := make(chan struct{})
